@@ -166,7 +166,7 @@ func c16Headers(c *core.Ctx) {
 			compressedRespond = cl
 		}
 	}
-	c.Need(R, "respond calls in DoWrite", n, 4)
+	c.Need(R, "respond calls in DoWrite", n, 2)
 	if rs := c.KidOf(R, u, "respond"); rs != nil {
 		ri := rs.Info()
 		okLen, okCopy := false, false
